@@ -1,7 +1,7 @@
 (** LeafSeqP.v — hand-written model functions = the definitions tools/gen_leaf.py regenerates from the Rust
     source on every run (coq/Gen/LeafSeq.v); see DESIGN.md §12.8. *)
 From Coq Require Import Floats.
-From Srtla Require Import Base Constants LeafSeq.
+From Srtla Require Import Base Constants LeafSeq LeafTac.
 From Srtla Require Conn.
 From Coq Require Import ZifyBool.
 Local Open Scope Z_scope.
@@ -10,7 +10,6 @@ Local Open Scope Z_scope.
 Lemma leaf_seq_is_valid_ok t seq now id ts sq :
   Conn.trk_find (Conn.slot seq) t = Some (id, ts, sq) ->
   Conn.trk_get t seq now = if leaf_seq_is_valid id sq ts seq now then Some id else None.
-Proof.
-  intros H. unfold Conn.trk_get, leaf_seq_is_valid, leaf_seq_is_expired. rewrite H. reflexivity.
-Qed.
+Proof. first [ solve [ intros H; unfold Conn.trk_get, leaf_seq_is_valid, leaf_seq_is_expired; rewrite H; reflexivity ]
+              | (intros H; unfold Conn.trk_get; rewrite H; leaf_auto) ]. Qed.
 
